@@ -348,6 +348,20 @@ func (c10) Run(ts *tape.Set, tier Tier) *Result {
 					}) {
 						return res
 					}
+					if i == 0 && rep == 0 {
+						// in between, the process builds the same entries with
+						// ANOTHER bucket hash function: nothing of that build may
+						// leak into the next one
+						other := uint64(mh.SHA2_256)
+						if hasher == mh.SHA2_256 {
+							other = mh.MURMUR3X64_64
+						}
+						_, _, _, _, _ = runBuild(174, func(ls *ipld.LinkSystem) (ipld.Link, uint64, error) {
+							return builder.BuildUnixFSShardedDirectory(dspec.Fanout, other, lnks, ls)
+						})
+						res.Execs++
+						res.probe("other-hasher-build-in-between")
+					}
 				}
 			}
 		case 3:
@@ -611,6 +625,10 @@ func c10Recursive(ts *tape.Set, tier Tier, res *Result) *Result {
 		}
 	}
 	mk(dir, 0)
+	// two symbolic links: one relative, one with an ABSOLUTE target outside the
+	// tree. A symlink's content is its target text, wherever the tree lies.
+	_ = os.Symlink("e0.bin", filepath.Join(dir, "rel-link"))
+	_ = os.Symlink("/etc/hostname", filepath.Join(dir, "abs-link"))
 	sc.Spec = fmt.Sprintf("temp tree with %d files", len(files))
 	res.probe("recursive-import")
 	build := func(w *world.World) buildResult {
@@ -663,6 +681,38 @@ func c10Recursive(ts *tape.Set, tier Tier, res *Result) *Result {
 				res.Violation = &Violation{Class: "c10/result-depends-on-earlier-builds/recursive", Msg: fmt.Sprintf("after %s was rewritten in place (same length, same mtime) a re-import through the link system used before returns (%s, %d, %v); a fresh import of the same tree returns (%s, %d)", filepath.Base(fp), edited.link, edited.size, edited.err, freshEdited.link, freshEdited.size)}
 				return res
 			}
+		}
+	}
+	// the same tree at another place, three directories deeper: the import is
+	// a function of the tree, not of where it is mounted
+	{
+		elsewhere, err := os.MkdirTemp("", "verif-c10-elsewhere-")
+		if err == nil {
+			deep := filepath.Join(elsewhere, "a", "b", "the-tree")
+			if copyTree(dir, deep) == nil {
+				var br buildResult
+				w := world.New(store.New(), false)
+				panicked, site, pmsg := guard(func() {
+					l, sz, err := builder.BuildUnixFSRecursive(deep, &w.LS)
+					br.err, br.size = err, sz
+					if l != nil {
+						br.link = l.String()
+					}
+				})
+				res.Execs++
+				if panicked {
+					br.err = fmt.Errorf("panic@%s: %s", site, pmsg)
+				}
+				ref := build(world.New(store.New(), false))
+				res.probe("same-tree-at-another-location")
+				sc.Builds = append(sc.Builds, "import of a copy of the tree three directories deeper")
+				if ref.err == nil && (br.err != nil || br.link != ref.link || br.size != ref.size) {
+					os.RemoveAll(elsewhere)
+					res.Violation = &Violation{Class: "c10/link-differs/recursive-location", Msg: fmt.Sprintf("a copy of the tree (files, directories, symbolic links with the same targets) at another, deeper location imports as (%s, %d, %v); the tree itself as (%s, %d)", br.link, br.size, br.err, ref.link, ref.size)}
+					return res
+				}
+			}
+			os.RemoveAll(elsewhere)
 		}
 	}
 	// a regular file whose stat size is 0 although it delivers bytes (procfs,
@@ -728,3 +778,35 @@ type fixedNode struct {
 
 func (f *fixedNode) Size() (int64, error) { return f.sz, nil }
 func (f *fixedNode) Link() ipld.Link      { return f.l }
+
+// copyTree copies regular files, directories and symbolic links (target text
+// unchanged) from src to dst.
+func copyTree(src, dst string) error {
+	return filepath.Walk(src, func(p string, info os.FileInfo, err error) error {
+		if err != nil {
+			return err
+		}
+		rel, err := filepath.Rel(src, p)
+		if err != nil {
+			return err
+		}
+		to := filepath.Join(dst, rel)
+		switch {
+		case info.IsDir():
+			return os.MkdirAll(to, 0o755)
+		case info.Mode()&os.ModeSymlink != 0:
+			t, err := os.Readlink(p)
+			if err != nil {
+				return err
+			}
+			return os.Symlink(t, to)
+		case info.Mode().IsRegular():
+			b, err := os.ReadFile(p)
+			if err != nil {
+				return err
+			}
+			return os.WriteFile(to, b, 0o644)
+		}
+		return nil
+	})
+}
